@@ -43,9 +43,25 @@ impl Display for CompoundKind {
     }
 }
 
-#[derive(Debug, Eq, PartialEq, Clone, Default)]
+#[derive(Eq, PartialEq, Clone, Default)]
 pub struct Bind {
     bound_generics: HashMap<Identifier, Arc<XType>>,
+}
+
+// the map iterates in a different order in every process: print it sorted so that texts made with this
+// (error messages) are the same every time
+impl Debug for Bind {
+    fn fmt(&self, f: &mut Formatter<'_>) -> std::fmt::Result {
+        let mut entries: Vec<_> = self
+            .bound_generics
+            .iter()
+            .map(|(k, v)| (format!("{k:?}"), v))
+            .collect();
+        entries.sort_by(|a, b| a.0.cmp(&b.0));
+        f.debug_struct("Bind")
+            .field("bound_generics", &entries)
+            .finish()
+    }
 }
 
 impl Bind {
@@ -95,12 +111,24 @@ where
     }
 }
 
-#[derive(Clone, Debug, Eq, PartialEq)]
+#[derive(Clone, Eq, PartialEq)]
 pub struct XCompoundSpec {
     pub(crate) name: Identifier,
     pub(crate) generic_names: Vec<Identifier>,
     pub(crate) fields: Vec<XCompoundFieldSpec>,
     pub(crate) indices: HashMap<Identifier, usize>,
+}
+
+// `indices` is derived from `fields` and iterates in a different order in every process: texts made
+// with this (error messages) must not depend on it
+impl Debug for XCompoundSpec {
+    fn fmt(&self, f: &mut Formatter<'_>) -> std::fmt::Result {
+        f.debug_struct("XCompoundSpec")
+            .field("name", &self.name)
+            .field("generic_names", &self.generic_names)
+            .field("fields", &self.fields)
+            .finish()
+    }
 }
 
 impl XCompoundSpec {
